@@ -437,6 +437,8 @@ func (d *Datastore) TransactionSet(ctx context.Context, transactionId string, tr
 		}
 	}
 
+	types.VerifYieldPoint("set:registered")
+
 	// add the replaceIntent to the transaction
 	transaction.SetReplace(replaceIntent)
 
